@@ -828,3 +828,8 @@ Proof.
   rewrite Ep. cbn [snd].
   apply (valid_from_numbers pms (msg_attrs ms) nums); try assumption. now apply shape_members_designed.
 Qed.
+
+Lemma stream_trace_spec hd dok :
+  (In SDecode (stream_trace hd dok) <-> hd = true) /\
+  (In SEndpoint (stream_trace hd dok) <-> hd = false \/ dok = true).
+Proof. destruct hd, dok; cbn; intuition discriminate. Qed.
